@@ -23,6 +23,9 @@ def run(ctx):
         _commit.model_check(ctx, faults=2)
     _commit.replay_schedules(ctx, "edge", faults=1)
     _commit.size_sweep(ctx, ctx.pick(90, 900))
+    # injected file-system failures (LD_PRELOAD layer) at sampled positions of recorded workloads, then crash + reopen
+    from checks import _storage
+    _storage.fault_sweep(ctx, ctx.pick(8, 32), ctx.pick(12, 60))
     if not ctx.quick:
         _commit.replay_schedules(ctx, "f2", faults=2)
     ctx.cov["exhaustive"] = True
@@ -30,4 +33,14 @@ def run(ctx):
 
 
 def replay(ctx, doc):
-    _commit.replay(ctx, doc["replay"])
+    if doc["replay"].get("driver") == "fault_sweep":
+        from checks import _storage
+        rp = doc["replay"]
+        core.build_harness(["storage_run", "crash_reopen"])
+        _storage.build_shim()
+        r = _storage.fault_workload((0, rp["seed"], rp["args"], 0, None, [rp["spec"]]))
+        for v in r["violations"]:
+            ctx.violation(rp, {"class": v["class"], "fault": v.get("phase") or "io", "fault_op": v["fault_op"],
+                               "fault_path": v["fault_path"]}, "%s: %s" % (v["class"], v["detail"][:300]))
+    else:
+        _commit.replay(ctx, doc["replay"])
